@@ -64,6 +64,22 @@ VARIANTS = [  # (index, node name, root path as hashed, structure?, filtered?)
 ]
 # does the Lean model's stat record carry the checksum (needed for bit-exact signatures in checksum-only workspaces)?
 MODEL_HAS_CHECKSUM = True
+
+
+def variants_for(root, clean):
+    """the four directory nodes of a workspace.  clean=None: the relative spellings above.  clean=k: ABSOLUTE node names
+    (the real, symlink-free path of the workspace), variant k spelled cleanly (`<root>/d/`), the others told apart by
+    `/.` components (`<root>/./d/` ...): the listers compare `real_path` of a symbolic link with the directory path as
+    spelled, which can only ever match for a clean absolute spelling."""
+    if clean is None:
+        return VARIANTS
+    out = []
+    for idx, _, _, structure, filtered in VARIANTS:
+        hp = root + "/." * ((idx - clean) % 4) + "/d"
+        out.append((idx, hp + "/", hp, structure, filtered))
+    return out
+
+
 PATTERN_SETS = [[b"*.tmp"], [b"*.o", b"k*"], [b"?"], [b"[ab]*", b"*.tmp"], [b"sub"], [b"*"], [b"nomatch"]]
 NAMES = [b"a", b"b", b"c", b"k.tmp", b"x.o", b"sub", b"z z", b".hid", b"\xc3\xbc", b"ab", b"B", b"k", b"t.tmp.x", b"sub2"]
 
@@ -75,17 +91,18 @@ def yaml_str(b):
 FS_MODES = ["default", "device-agnostic", "checksum-only"]     # the values BuildSystemFileDelegate::configureClient accepts
 
 
-def build_file(patterns, fs_mode="default"):
+def build_file(patterns, fs_mode="default", variants=None):
+    variants = variants or VARIANTS
     pats = "[" + ", ".join(yaml_str(p) for p in patterns) + "]"
     out = ["client:", "  name: basic"] + (["  file-system: " + fs_mode] if fs_mode != "default" else [])
     out += ["", "targets:", '  "": ["<all>"]', "", "nodes:"]
-    for idx, node, _, structure, filtered in VARIANTS:
+    for idx, node, _, structure, filtered in variants:
         out.append('  "%s":' % node)
         out.append("    is-directory-structure: true" if structure else "    is-directory: true")
         if filtered:
             out.append("    content-exclusion-patterns: " + pats)
     out += ["", "commands:", "  C.all:", "    tool: phony", '    inputs: ["<o0>", "<o1>", "<o2>", "<o3>"]', '    outputs: ["<all>"]']
-    for idx, node, _, _, _ in VARIANTS:
+    for idx, node, _, _, _ in variants:
         out += ["  C%d:" % idx, "    tool: shell", '    inputs: ["%s"]' % node, '    outputs: ["<o%d>"]' % idx,
                 "    args: echo r >> log.%d" % idx]
     return "\n".join(out) + "\n"
@@ -95,8 +112,10 @@ def build_file(patterns, fs_mode="default"):
 # a workspace: real files + logical clock
 # ----------------------------------------------------------------------------------------------
 class WS:
-    def __init__(self, root, patterns, exe, fs_mode="default"):
-        self.root, self.patterns, self.exe, self.fs_mode = root, patterns, exe, fs_mode
+    def __init__(self, root, patterns, exe, fs_mode="default", clean=None):
+        root = os.path.realpath(root)
+        self.root, self.patterns, self.exe, self.fs_mode, self.clean = root, patterns, exe, fs_mode, clean
+        self.variants = variants_for(root, clean)
         self.clock = 1000
         self.mt = {}            # relative path (bytes) -> logical mtime (seconds)
         self.keep = False       # RESTORE flavour: an entry-set edit leaves the directory's logical stamp as it was
@@ -111,7 +130,7 @@ class WS:
         for p in ("ext/t1", "ext/t2", "ext/dirT/inner", "ext/dirT"):
             os.utime(os.path.join(root, p), ns=(500 * 10**9, 500 * 10**9))
         with open(os.path.join(root, "build.llbuild"), "w", encoding="latin-1") as f:
-            f.write(build_file(patterns, fs_mode))
+            f.write(build_file(patterns, fs_mode, self.variants))
         self.sticky = [dict() for _ in VARIANTS]
         self.prev_obs = [None] * len(VARIANTS)
         self.prev_dirs = [None] * len(VARIANTS)
@@ -270,6 +289,15 @@ class WS:
                     ck = b"\0" * 32
         return (dev, ino, st.st_mode, st.st_size, sec, ns, ck)
 
+    def guard_prefix_link(self, dirpath, rel):
+        """is `rel` a symbolic link whose real path is a string prefix of the spelled directory path `dirpath` without
+        being that directory or one of its ancestors?"""
+        fp = self.p(rel)
+        if not os.path.islink(fp) or not os.path.exists(fp):
+            return False
+        r = os.path.realpath(fp)
+        return dirpath.startswith(r) and len(dirpath) > len(r) and dirpath[len(r):len(r) + 1] != b"/" and not r.endswith(b"/")
+
     def hidden(self, name, filtered):
         return filtered and any(fnmatch(p, name) for p in self.patterns)
 
@@ -280,11 +308,12 @@ class WS:
         tool=True: what the tool can see under defect F57 — the listing of a directory is the one taken at the
         tool's last visit unless the directory's record (any field) differs from the one at that visit, or the tool has
         since seen the path missing / as a non-directory; a listed name that no longer exists is a missing child."""
-        _, _, hpath, structure, filtered = VARIANTS[vidx]
+        _, _, hpath, structure, filtered = self.variants[vidx]
         sticky = (self.tool_sticky if tool else self.sticky)[vidx]
         state = self.tool_state[vidx]
         hidden_names = set()
         dirs = {}
+        guard_links = []
 
         def info(keypath, rel):
             st = self.stat(rel)
@@ -314,9 +343,18 @@ class WS:
                 return o, ["F"] + nums
             kids, toks = [], []
             entries = os.listdir(self.p(rel))          # directory order, as the model's Tree has it
+            if not filtered and keypath.startswith(b"/"):
+                # defect model F58 (unfiltered lister, absolute spelling): the loop guard `path.startswith(real_path(link))`
+                # is a STRING prefix test, so it also drops a link that resolves to a non-ancestor whose path is a
+                # string prefix of the directory path (<root>/d/sub2/x -> ../sub)
+                g = [n for n in entries if self.guard_prefix_link(keypath, rel + b"/" + n)]
+                if g:
+                    guard_links.extend(keypath + b"/" + n for n in g)
+                    if tool:
+                        entries = [n for n in entries if n not in g]
             visible = tuple(sorted(n for n in entries if not self.hidden(n, filtered)))
             dirs[keypath] = (raw, visible)
-            if tool:
+            if tool and filtered:
                 old = state.get(keypath)
                 if old is not None and old[0] == raw:
                     entries = list(old[1])             # not re-listed: Node(dir) and Stat(dir) are unchanged
@@ -339,6 +377,7 @@ class WS:
             own = None if (is_root and filtered) else (i[2] if structure else i)
             return ("dir", own, tuple(kids)), ["D"] + nums + [str(n_listed)] + toks
         o, toks = rec(hpath.encode(), b"d", True)
+        self.last_guard_links = [g.decode("latin-1") for g in guard_links]
         return o, toks, sorted(hidden_names), dirs
 
     def build(self):
@@ -371,7 +410,7 @@ class WS:
                 continue
             n = struct.unpack("<I", key[1:5])[0]
             name = key[5:5 + n]
-            for idx, _, hpath, structure, _ in VARIANTS:
+            for idx, _, hpath, structure, _ in self.variants:
                 if name == hpath.encode() and (key[:1] == b"s") == structure and len(val) >= 9:
                     res[idx] = struct.unpack("<Q", bytes(val)[1:9])[0]
         return res
@@ -527,7 +566,7 @@ def apply_edit_s(ws, rng):
 
 def new_out(hid, ws):
     return {"hid": hid, "builds": [], "failures": [], "lines": [], "edits": {}, "reruns": [0] * 4, "expected_reruns": [0] * 4,
-            "mode_only": 0, "nodes": len(ws.walk()), "fs_mode": ws.fs_mode, "restore_edits": 0,
+            "mode_only": 0, "nodes": len(ws.walk()), "fs_mode": ws.fs_mode, "clean": ws.clean, "restore_edits": 0,
             "preserved": [0] * 4, "stale_decisions": 0, "script": {"init": ws.take_ops(), "builds": []}}
 
 
@@ -545,7 +584,7 @@ def do_build(ws, out, edits, history, ident):
     out["mode_only"] += 1 if mode_only else 0
     kinds = sorted({e.split(":")[0] for e in edits})
     flavours = sorted({"restore" if e.endswith(" [restore]") else "plain" for e in edits})
-    for idx, node, hpath, structure, filtered in VARIANTS:
+    for idx, node, hpath, structure, filtered in ws.variants:
         o, toks, hidden, dirs = ws.observe(idx)
         changed = ws.prev_obs[idx] is None or o != ws.prev_obs[idx]
         ws.prev_obs[idx] = o
@@ -557,7 +596,8 @@ def do_build(ws, out, edits, history, ident):
         out["preserved"][idx] += 1 if preserved else 0
         tool_toks = None
         tool_changed = changed
-        if filtered:
+        guard_links = ws.last_guard_links
+        if filtered or ws.clean == idx:
             to, ttoks, _, _ = ws.observe(idx, tool=True)
             tool_changed = ws.prev_tool_obs[idx] is None or to != ws.prev_tool_obs[idx]
             ws.prev_tool_obs[idx] = to
@@ -567,14 +607,22 @@ def do_build(ws, out, edits, history, ident):
         out["reruns"][idx] += 1 if ran[idx] else 0
         out["expected_reruns"][idx] += 1 if changed else 0
         base = {"variant": "structure" if structure else "tree", "filtered": filtered, "fs_mode": ws.fs_mode,
+                "node_path": "relative" if ws.clean is None else ("absolute-clean" if ws.clean == idx else "absolute-dotted"),
                 "edit_kinds": kinds, "edit_flavours": flavours, "stat_record_preserved": bool(preserved)}
         inp = dict(ident, build=b, patterns=[p.decode("latin-1") for p in ws.patterns], fs_mode=ws.fs_mode,
-                   edits_so_far=list(history), script={"init": out["script"]["init"], "builds": list(out["script"]["builds"])},
-                   entry_set_changed_with_equal_stat_record=preserved)
+                   clean=ws.clean, node=node, edits_so_far=list(history), script={"init": out["script"]["init"], "builds": list(out["script"]["builds"])},
+                   entry_set_changed_with_equal_stat_record=preserved, links_dropped_by_string_prefix_guard=guard_links)
         if rc != 0 or ran[idx] != changed:
             label = "%s (%s%s, file-system %s)" % (node, "structure" if structure else "tree", ", filtered" if filtered else "", ws.fs_mode)
             if rc != 0:
                 kind, what = "build-failed", "build failed (exit %d): %s" % (rc, txt[-200:])
+            elif not filtered and ws.clean == idx and ran[idx] == tool_changed:
+                # the property is violated in exactly the way the string-prefix loop guard of the unfiltered lister predicts (F58)
+                kind = "loop-guard-string-prefix"
+                what = ("command with input %s %s although the observed tree %s: the unfiltered lister drops a symbolic link whose "
+                        "real path is a string prefix of the (absolute) directory path although it is not an ancestor" % (
+                            label, "re-executed (late)" if ran[idx] else "did NOT re-execute", "changed" if changed else "did not change"))
+                base["effect"] = "missed-rerun" if changed else "late-rerun"
             elif filtered and ran[idx] == tool_changed:
                 # the property is violated, and in exactly the way a filtered listing that is only refreshed when
                 # the directory's stat record changes predicts (F57)
@@ -600,7 +648,7 @@ def do_build(ws, out, edits, history, ident):
 
 def drop_workspace(ws, out):
     """keep the workspace of a history only for failures the F57 defect model does not explain"""
-    if all(f["kind"] == "stale-filtered-listing" for f in out["failures"]):
+    if all(f["kind"] in ("stale-filtered-listing", "loop-guard-string-prefix") for f in out["failures"]):
         shutil.rmtree(ws.root, ignore_errors=True)
 
 
@@ -662,6 +710,175 @@ def run_history_s(args):
     return out
 
 
+# ----------------------------------------------------------------------------------------------
+# third stream: symbolic links to siblings / into sub-directories / to directories, absolute node names
+# ----------------------------------------------------------------------------------------------
+def make_ext2(ws):
+    """a second directory outside the tree, two levels deep, that only this stream links to and edits"""
+    ws.mkdir(b"ext/dirU")
+    ws.mkfile(b"ext/dirU/inner", b"i1")
+    ws.mkdir(b"ext/dirU/deep")
+    ws.mkfile(b"ext/dirU/deep/more", b"m1")
+
+
+def link_target(ws, rng, parent):
+    """a target for a symbolic link created in directory `parent`: a sibling entry, something below a sibling
+    directory (both relative, without `..`: such links can never form a loop), a directory or file outside the tree,
+    or nothing.  (Targets with `..` inside the tree are only used in scripted corpus histories: once such a link is
+    moved into its own target the walk is exponential.)"""
+    depth = parent.count(b"/") + 1
+    up = b"../" * depth
+    sib = sorted(os.listdir(ws.p(parent)))
+    below = []
+    for n in sib:
+        fp = ws.p(parent + b"/" + n)
+        if os.path.isdir(fp) and not os.path.islink(fp):
+            for m in sorted(os.listdir(fp)):
+                below.append(n + b"/" + m)
+    c = rng.below(10)
+    if c < 4 and sib:
+        return rng.choice(sib)
+    if c < 6 and below:
+        return rng.choice(below)
+    if c < 8:
+        return up + rng.choice([b"ext/dirU", b"ext/dirU", b"ext/dirT", b"ext/dirU/deep"])
+    if c < 9:
+        return up + rng.choice([b"ext/t1", b"ext/dirU/inner"])
+    return rng.choice([b"nowhere"] + [n for n in NAMES if n not in sib][:2])
+
+
+def gen_tree_t(ws, rng, depth, fan, cap):
+    gen_tree(ws, rng, depth, fan, cap)
+    make_ext2(ws)
+    dirs = [b"d"] + [r for r, k in ws.walk() if k == "d"]
+    for parent in dirs:
+        for _ in range(rng.below(3)):
+            have = set(os.listdir(ws.p(parent)))
+            cands = [n for n in NAMES if n not in have]
+            if cands:
+                ws.mklink(parent + b"/" + rng.choice(cands), link_target(ws, rng, parent))
+
+
+def through_links(ws):
+    """regular files reached THROUGH a symbolic link that resolves to a directory, one or two levels below it:
+    [(real path relative to the workspace, link, levels)]"""
+    out = []
+    root = ws.root.encode()
+    for r, k in ws.walk():
+        fp = ws.p(r)
+        if k != "l" or not os.path.isdir(fp):
+            continue
+        top = os.path.realpath(fp)
+        if not top.startswith(root + b"/"):
+            continue
+        for n in sorted(os.listdir(top)):
+            a = os.path.join(top, n)
+            if os.path.isfile(a) and not os.path.islink(a):
+                out.append((a[len(root) + 1:], r, 1))
+            elif os.path.isdir(a) and not os.path.islink(a):
+                for m in sorted(os.listdir(a)):
+                    b2 = os.path.join(a, m)
+                    if os.path.isfile(b2) and not os.path.islink(b2):
+                        out.append((b2[len(root) + 1:], r, 2))
+    return out
+
+
+def apply_edit_t(ws, rng):
+    r = rng.below(20)
+    nodes = ws.walk()
+    dirs = [b"d"] + [x for x, k in nodes if k == "d"]
+    links = [x for x, k in nodes if k == "l"]
+    if r < 8:                                        # symbolic-link edits, half of them restoring the directory's mtime
+        ws.keep = rng.chance(1, 2)
+        tag = " [restore]" if ws.keep else ""
+        try:
+            c = rng.below(4)
+            if c == 0 or not links:
+                parent = rng.choice(dirs)
+                have = set(os.listdir(ws.p(parent)))
+                cands = [n for n in NAMES if n not in have]
+                if not cands:
+                    return None
+                new = parent + b"/" + rng.choice(cands)
+                tgt = link_target(ws, rng, parent)
+                ws.mklink(new, tgt)
+                return "add_link:%s -> %s%s" % (new.decode("latin-1"), tgt.decode("latin-1"), tag)
+            l = rng.choice(links)
+            if c == 1:
+                ws.remove(l)
+                return "remove_link:%s%s" % (l.decode("latin-1"), tag)
+            if c == 2:
+                have = set(os.listdir(ws.p(os.path.dirname(l))))
+                cands = [n for n in NAMES if n not in have]
+                if not cands:
+                    return None
+                new = os.path.dirname(l) + b"/" + rng.choice(cands)
+                ws.rename(l, new)
+                return "rename_link:%s -> %s%s" % (l.decode("latin-1"), new.decode("latin-1"), tag)
+            old = os.readlink(ws.p(l))
+            tgt = link_target(ws, rng, os.path.dirname(l))
+            if tgt == old:
+                return None
+            ws.relink(l, tgt)
+            return "retarget_link:%s -> %s%s" % (l.decode("latin-1"), tgt.decode("latin-1"), tag)
+        finally:
+            ws.keep = False
+    if r < 14:                                       # in-place edits of files reached through a link to a directory
+        cands = through_links(ws)
+        if not cands:
+            return None
+        real, link, lv = rng.choice(cands)
+        c = rng.below(3)
+        if c == 0:
+            ws.append(real)
+            what = "content"
+        elif c == 1:
+            with open(ws.p(real), "rb") as f:
+                old = f.read()
+            if not old:
+                return None
+            ws.rewrite(real, bytes([(old[0] + 1 + rng.below(200)) % 256]) + old[1:], False)
+            what = "rewrite"
+        else:
+            ws.stamp(real)
+            what = "mtime"
+        return "%s_through_link:%s (via %s, %d below)" % (what, real.decode("latin-1"), link.decode("latin-1"), lv)
+    return apply_edit_s(ws, rng)
+
+
+T_MODES = ["default", "checksum-only", "device-agnostic"]
+
+
+def run_history_t(args):
+    """third stream (own RNG stream): links to siblings / below / to directories, edits through them, absolute node names"""
+    (hid, seed, exe, scratch, depth, fan, cap, nbuilds) = args
+    rng = C.Rng(seed, "C12/t%d" % hid)
+    clean = [None, 1, 3, 0, 1, 3, 2][hid % 7]          # relative | absolute with variant k spelled cleanly
+    patterns = PATTERN_SETS[(hid // 21) % len(PATTERN_SETS)]
+    ws = WS(os.path.join(scratch, "t%d" % hid), patterns, exe, T_MODES[(hid // 7) % 3], clean)
+    gen_tree_t(ws, rng, depth, fan, cap)
+    out = new_out("t%d" % hid, ws)
+    history = []
+    for b in range(nbuilds):
+        edits = []
+        if b > 0:
+            r = rng.below(10)
+            k = 0 if r == 0 else (1 if r < 7 else 2 + rng.below(3))
+            for _ in range(k):
+                for _try in range(4):
+                    e = apply_edit_t(ws, rng)
+                    if e:
+                        edits.append(e)
+                        key = e.split(":")[0] + ("+restore" if e.endswith(" [restore]") else "")
+                        out["edits"][key] = out["edits"].get(key, 0) + 1
+                        out["restore_edits"] += 1 if e.endswith(" [restore]") else 0
+                        break
+        history.append(edits)
+        do_build(ws, out, edits, history, {"history": "t%d" % hid, "stream": "t", "seed": seed})
+    drop_workspace(ws, out)
+    return out
+
+
 OP_KIND = {"mkfile": "add_file", "mkdir": "add_dir", "mklink": "add_link", "append": "content", "stamp": "mtime"}
 
 
@@ -669,7 +886,7 @@ def run_script(args):
     """a scripted history (corpus/C12/*.json, or the `script` of a replay file): exact primitive operations"""
     (name, spec, exe, scratch) = args
     patterns = [p.encode("latin-1") for p in spec["patterns"]]
-    ws = WS(os.path.join(scratch, "c-" + name), patterns, exe, spec.get("fs_mode", "default"))
+    ws = WS(os.path.join(scratch, "c-" + name), patterns, exe, spec.get("fs_mode", "default"), spec.get("clean"))
     for o in spec["script"]["init"]:
         ws.apply_op(o)
     out = new_out("corpus:" + name, ws)
@@ -744,7 +961,8 @@ class Check(PropertyCheck):
                 r = json.load(fh)
             inp = r.get("failure", r).get("input", {})
             if "script" in inp:
-                specs.append(("replay", {"patterns": inp["patterns"], "fs_mode": inp.get("fs_mode", "default"), "script": inp["script"]}))
+                specs.append(("replay", {"patterns": inp["patterns"], "fs_mode": inp.get("fs_mode", "default"),
+                                         "clean": inp.get("clean"), "script": inp["script"]}))
         return specs
 
     def correspond(self, ctx, res):
@@ -753,25 +971,30 @@ class Check(PropertyCheck):
         shutil.rmtree(scratch, ignore_errors=True)
         os.makedirs(scratch, exist_ok=True)
         if ctx.thorough:
-            nh, ns, depth, fan, cap, nb = 2000, 2000, 6, 6, 60, 10
+            nh, ns, nt, depth, fan, cap, nb = 2000, 2000, 1470, 6, 6, 60, 10
         else:
-            nh, ns, depth, fan, cap, nb = 600, 600, 4, 4, 24, 8
+            nh, ns, nt, depth, fan, cap, nb = 600, 600, 441, 4, 4, 24, 8
         jobs = [(h, ctx.seed, exe, scratch, depth if h % 3 else 2, fan, cap, nb) for h in range(nh)]
         jobs_s = [(h, ctx.seed, exe, scratch, depth if h % 4 else 2, fan, cap, nb) for h in range(ns)]
+        jobs_t = [(h, ctx.seed, exe, scratch, min(depth, 4) if h % 4 else 2, min(fan, 4), min(cap, 24), nb) for h in range(nt)]
         specs = self.corpus(ctx)
         # processes, not threads: the python observer is CPU-bound (a thread pool is ~10x slower under the GIL)
         with ProcessPoolExecutor(max_workers=16) as ex:
             fc = [ex.submit(run_script, (name, spec, exe, scratch)) for name, spec in specs]
             fs = [ex.submit(run_history_s, j) for j in jobs_s]
+            ft = [ex.submit(run_history_t, j) for j in jobs_t]
             fh = [ex.submit(run_history, j) for j in jobs]
             outs_c, outs_s, outs = [f.result() for f in fc], [f.result() for f in fs], [f.result() for f in fh]
+            outs_t = [f.result() for f in ft]
         edits, lines = {}, []
         reruns, expected = [0] * 4, [0] * 4
         builds = mode_only = nodes = 0
         by_mode = {m: {"histories": 0, "decisions": 0, "expected_reruns": 0, "restore_edits": 0,
                        "decisions_with_entry_set_change_under_equal_stat_record[tree,tree+filter,struct,struct+filter]": [0] * 4,
                        "filtered_decisions_where_the_F57_defect_model_sees_a_stale_listing": 0} for m in FS_MODES}
-        for o in outs_c + outs_s + outs:
+        node_paths = {"relative": 0, "absolute": 0}
+        for o in outs_c + outs_t + outs_s + outs:
+            node_paths["relative" if o["clean"] is None else "absolute"] += 1
             for f in o["failures"]:
                 res.oracle_failures.append(f)
             for k, v in o["edits"].items():
@@ -793,7 +1016,8 @@ class Check(PropertyCheck):
                 m["decisions_with_entry_set_change_under_equal_stat_record[tree,tree+filter,struct,struct+filter]"][i] += o["preserved"][i]
         res.evaluations += builds * 4
         res.distinct_nontrivial += sum(expected)
-        res.distribution.update({"histories": nh, "histories_second_stream": ns, "corpus_histories": [n for n, _ in specs],
+        res.distribution.update({"histories": nh, "histories_second_stream": ns, "histories_third_stream": nt,
+                                 "histories_by_node_path": node_paths, "corpus_histories": [n for n, _ in specs],
                                  "builds": builds, "edits": edits, "initial_tree_nodes_total": nodes,
                                  "reruns_by_variant[tree,tree+filter,struct,struct+filter]": reruns,
                                  "expected_reruns_by_variant": expected, "mode_only_edit_builds": mode_only,
@@ -819,7 +1043,7 @@ class Check(PropertyCheck):
                 bad = stale = 0
                 tool_out = iter(mout[len(sample):])
                 for (hid, idx, b, line, impl, tline, base, inp), m in zip(sample, mout):
-                    field = "struct" if VARIANTS[idx][3] else "tree"
+                    field = "struct" if (idx >= 2) else "tree"
                     want = dict(kv.split("=") for kv in m.split(" ") if "=" in kv).get(field)
                     twant = dict(kv.split("=") for kv in next(tool_out).split(" ") if "=" in kv).get(field) if tline else None
                     if want == impl:
@@ -827,38 +1051,47 @@ class Check(PropertyCheck):
                     if tline and twant == impl:
                         # the stored signature is the model's signature of the STALE view (F57), not of the tree as it is
                         stale += 1
-                        res.oracle_failures.append(dict(base, kind="stale-filtered-listing", effect="stale-signature", input=inp,
-                                                        what="the signature stored for %s is that of a stale filtered listing (%s), "
-                                                             "not of the tree as it is (%s)" % (VARIANTS[idx][1], impl, want)))
+                        res.oracle_failures.append(dict(base, kind="stale-filtered-listing" if base["filtered"] else "loop-guard-string-prefix",
+                                                        effect="stale-signature", input=inp,
+                                                        what="the signature stored for %s is that of %s (%s), "
+                                                             "not of the tree as it is (%s)" % (inp.get("node"),
+                                                             "a stale filtered listing" if base["filtered"] else "a listing without the links the string-prefix loop guard drops",
+                                                             impl, want)))
                         continue
                     bad += 1
                     if bad <= 10:
-                        res.mismatches.append({"stream": "c12sig", "input": "history %s build %d variant %s: %s" % (hid, b, VARIANTS[idx][1], line[:400]),
+                        res.mismatches.append({"stream": "c12sig", "input": "history %s build %d variant %s: %s" % (hid, b, inp.get("node"), line[:400]),
                                                "model": m, "impl": impl})
                 res.distribution["signature_values_compared"] = len(sample)
                 res.distribution["signature_values_differing"] = bad
                 res.distribution["signature_values_of_a_stale_filtered_listing"] = stale
                 res.evaluations += len(sample)
         # failures the F57 defect model does not explain first (the runner writes replay files for the first five)
-        res.oracle_failures.sort(key=lambda f: f.get("kind") == "stale-filtered-listing")
+        res.oracle_failures.sort(key=lambda f: f.get("kind") in ("stale-filtered-listing", "loop-guard-string-prefix"))
         fk = {}
         for f in res.oracle_failures:
-            k = "%s/%s/%s/%s/%s" % (f.get("kind"), f.get("effect", "-"), "filtered" if f.get("filtered") else "unfiltered", f.get("variant"), f.get("fs_mode"))
+            k = "%s/%s/%s/%s/%s" % (f.get("kind"), f.get("effect", "-"), "filtered" if f.get("filtered") else "unfiltered", f.get("variant"), f.get("fs_mode")) + "/" + str(f.get("node_path"))
             fk[k] = fk.get(k, 0) + 1
-        res.distribution["oracle_failures_by_kind/effect/filtered/variant/fs_mode"] = fk
-        res.rule = ("%d + %d seeded histories (random tree, depth<=%d, fan-out<=%d) x %d builds each through the real `llbuild buildsystem build` "
+        res.distribution["oracle_failures_by_kind/effect/filtered/variant/fs_mode/node_path"] = fk
+        res.rule = ("%d + %d + %d seeded histories (random tree, depth<=%d, fan-out<=%d) x %d builds each through the real `llbuild buildsystem build` "
                     "(new process per build, database reused), four directory inputs per build (tree/structure x unfiltered/filtered); "
                     "between builds: null rebuild (10%%), one edit (60%%) or 2-4 edits (30%%).  First stream (file-system default): add file/dir, remove, "
                     "rename, move, retype, content, mtime bump, chmod, symlink retarget at any depth, directories re-stamped when their entry set changes.  "
                     "Second stream (file-system default / checksum-only / device-agnostic = 2:2:1): half of the edits are add file/dir, remove, rename, move "
                     "that RESTORE the directory's mtime, 10%% same-size content rewrites (mtime new or kept), the rest as in the first stream.  "
+                    "Third stream (relative node names and ABSOLUTE ones, each variant in turn spelled cleanly; all three file-system modes): 40%% add / remove / "
+                    "rename / retarget of symbolic links whose target is a sibling entry, lies below the same directory, is a directory or file outside the tree "
+                    "or nothing (half restoring the directory's mtime), 30%% in-place edits (content, same-size rewrite, mtime) of files reached THROUGH a link to a "
+                    "directory, one or two levels below it, 30%% as in the second stream.  "
                     "Plus the scripted histories of corpus/C12.  Oracle per (build, variant): rerun iff observation changed.  "
                     "Non-trivial = builds x variants in which a rerun was expected.  Every stored root signature is compared bit-for-bit with the Lean model%s."
-                    % (nh, ns, depth, fan, nb, "" if MODEL_HAS_CHECKSUM else " (not in checksum-only workspaces: the model's stat record has no checksum field)"))
+                    % (nh, ns, nt, depth, fan, nb, "" if MODEL_HAS_CHECKSUM else " (not in checksum-only workspaces: the model's stat record has no checksum field)"))
         res.samples.append({"history0": [[e, r] for e, r in outs[0]["builds"]][:4]})
         if outs_s:
             res.samples.append({"history_s0": [[e, r] for e, r in outs_s[0]["builds"]][:4], "fs_mode": outs_s[0]["fs_mode"]})
-        if all(f.get("kind") == "stale-filtered-listing" for f in res.oracle_failures) and not res.mismatches:
+        if len(outs_t) > 1:
+            res.samples.append({"history_t1": [[e, r] for e, r in outs_t[1]["builds"]][:4], "fs_mode": outs_t[1]["fs_mode"], "clean": outs_t[1]["clean"]})
+        if all(f.get("kind") in ("stale-filtered-listing", "loop-guard-string-prefix") for f in res.oracle_failures) and not res.mismatches:
             shutil.rmtree(scratch, ignore_errors=True)
 
     def search(self, ctx, res, why):
